@@ -109,7 +109,7 @@ def case_to_coq(c):
     if c["fam"] == "inv":
         return "inv_case %d %s" % (c["eid"], L(S(f) for f in o["fields"]))
     e = c["env"]
-    env = "(Build_env %s %s %s %s)" % (B(e["plus"]), B(e["ap"]), B(e["dos"]), B(e["fix"]))
+    env = "(Build_env %s %s %s %s %s %s)" % (B(e["plus"]), B(e["ap"]), B(e["dos"]), B(e["fix"]), B(e.get("fixc")), B(e.get("fixb")))
     revs = L("(Build_rev %s %s %s %s %s %s)" % (KIND[r["kind"]], S(r["ns"]), S(r["name"]), B(r["direct"]), L(S(v) for v in r["via"]),
                                                 B(r["req"])) for r in o["rev"])
     pf = L("(%s, %s, %s)" % (S(p["skel"]["ns"]), S(p["skel"]["name"]), B(p["found"])) for p in o["pols"])
